@@ -233,7 +233,7 @@ pub fn run(rep: &Report) {
     sweep(rep, 64, 4, true, 0xC07);
     source_plane(rep, true, 0xC07);
     let t = rep.thorough();
-    sweep(rep, 64, if t { 200 } else { 40 }, false, rep.seed ^ 0x70);
+    sweep(rep, 64, if t { 1500 } else { 40 }, false, rep.seed ^ 0x70);
     if t {
         // long counts, sampled
         long_counts(rep);
